@@ -1691,7 +1691,16 @@ impl HandlerRunner {
                         }
                     }
                 }
-                if self.cur_authentic {
+                // (a handshake datagram that answers no outstanding challenge of the recipient is dropped
+                // unread: it is neither a use of a session nor something that could end one)
+                let hs_unchallenged_now = self.delivering_handshake && {
+                    let claimed: u64 = term.as_ref().and_then(|t| t.split('~').nth(1).and_then(|x| x.parse().ok())).unwrap_or(0);
+                    let (now, timeout) = (self.now_ms, self.timeout_ms);
+                    !self.ledger.outstanding_chal.iter().any(|((n, _), v)| *n == tidx && v.1 == claimed && v.2 == src && now <= v.0 + timeout + 5)
+                };
+                if hs_unchallenged_now {
+                    stats.bump("h.handshake-datagram-without-outstanding-challenge");
+                } else if self.cur_authentic {
                     self.obs += 1;
                     self.use_log.push((tidx, src, self.obs));
                     if self.delivering_handshake {
@@ -2269,6 +2278,7 @@ pub fn gen_case(rng: &mut Rng, tier: &str, profile: &str, stats: &mut Stats) -> 
                 for _ in 0..3 { ops2.push("hdel next".into()); }
             }
             let noise = rng.chance(1, 3);
+            let mut hs_noise = false;
             if noise {
                 // nothing is exchanged for longer than the timeout, but packets that do not decrypt keep
                 // arriving in the peer's name from its address: they are no use of the session
@@ -2284,8 +2294,19 @@ pub fn gen_case(rng: &mut Rng, tier: &str, profile: &str, stats: &mut Stats) -> 
                     }
                 }
                 ops2.push("hsleep 150".into());
+            } else if rng.chance(1, 4) {
+                // the same, with the handshake datagram that set the session up (the last thing the
+                // requester sent) turning up again and again at the other side: no challenge is
+                // outstanding, it has no effect - and is no use of the session either
+                stats.bump("gen.cases.c15-stale-handshake-while-idle");
+                hs_noise = true;
+                for _ in 0..3 {
+                    ops2.push("hsleep 200".into());
+                    ops2.push(format!("hdel from{}", x));
+                }
+                ops2.push("hsleep 150".into());
             } else if round == 0 || rng.chance(1, 2) { ops2.push("hsleep 700".into()); }
-            let (a, b) = if noise || rng.chance(1, 2) { (x, y) } else { (y, x) };
+            let (a, b) = if hs_noise { (y, x) } else if noise || rng.chance(1, 2) { (x, y) } else { (y, x) };
             ops2.push(format!("hreq {} {} enr {} {}", a, b, rid, rng.range(1, 4))); rid += 1;
             for _ in 0..2 { ops2.push("hdel next".into()); }
             ops2.push(format!("hwru {} next known", b));
